@@ -61,9 +61,10 @@ def case_strategy(draw):
                 og=og, frac=draw(st.sampled_from([0.5, 0.25, 0.01, 0.99, 0.73])), left=draw(st.integers(1, 40)), right=draw(st.integers(1, 40)),
                 aesthetics=draw(st.sampled_from(['traditional', 'noconst', 'mean', 'nothing', 'damp'])),
                 with_ivar=draw(st.sampled_from([True, True, True, False])) if nexp == 1 else True,
-                ivar_kind=draw(st.sampled_from(['smooth', 'const'])), scale=draw(st.sampled_from([2.0, 1e-17, 0.5, 1000.0, 1e-3, 1e-9])),
+                ivar_kind=draw(st.sampled_from(['smooth', 'const'])), scale=draw(st.sampled_from([2.0, 1e-17, 0.5, 1000.0, 1e-3, 1e-9, -2.0])),
                 seed=draw(st.integers(0, 10 ** 6)),
                 # stacked exposures on one grid sharing a mask that leaves one (or two) good wavelengths between two runs of two bad pixels
+                negate=draw(st.sampled_from([False, False, True])),
                 iso=(draw(st.sampled_from([None, None, [draw(st.integers(20, n - 20)), draw(st.sampled_from([1, 2]))]])) if nexp >= 2 else None))
 
 
@@ -98,6 +99,8 @@ def build(case):
             p_, w_ = case['iso']
             iv[p_ - 2:p_] = 0.0
             iv[p_ + w_:p_ + w_ + 2] = 0.0
+        if case.get('negate'):
+            fl = -fl          # a spectrum that is negative throughout (e.g. after an over-subtraction): still data to be resampled
         lls.append(ll)
         fls.append(fl)
         ivs.append(iv)
